@@ -311,12 +311,14 @@ def _write_sizes(ctx, rep, base):
     be = LocalStorageBackend(root)
     real = {n: getattr(os, n) for n in ("write", "fsync", "replace", "rename")}
     sizes = [0, 1, 4095, 4096, 4097, 65536, (1 << 20) - 1, 1 << 20, (1 << 20) + 1, 3 * (1 << 20) + 17] + ([8 << 20] if ctx.thorough else [])
-    for size in sizes:
+    for size, short in [(s_, False) for s_ in sizes] + [(s_, True) for s_ in (1, 4097, 65536, (1 << 20) + 1)]:
         for api in ("write_file", "write_json"):
             ev = []
 
-            def w(fd, data):
-                n = real["write"](fd, data)
+            def w(fd, data, short=short):
+                # `short`: the kernel takes only PART of the buffer per call (a legal outcome of write(2): nearly full disk, a signal,
+                # payloads beyond 2 GiB) and says so in its return value
+                n = real["write"](fd, bytes(data)[: max(1, len(data) // 2)] if short and len(data) > 1 else data)
                 ev.append(("write", fd, n))
                 return n
 
@@ -344,16 +346,19 @@ def _write_sizes(ctx, rep, base):
                     obj = {"v": "x" * size}
                     be.write_json(f"metadata/j{size}.json", obj)
                     import json as _json
-                    same = _json.loads(open(os.path.join(root, f"metadata/j{size}.json"), "rb").read()) == obj
+                    try:
+                        same = _json.loads(open(os.path.join(root, f"metadata/j{size}.json"), "rb").read()) == obj
+                    except ValueError:
+                        same = False
             finally:
                 os.write, os.fsync, os.replace = real["write"], real["fsync"], real["replace"]
             rep.evaluations += 1
             rep.nontrivial(["write-size", api, size])
-            case = {"kind": "write-size", "api": api, "bytes": size}
+            case = {"kind": "write-size", "api": api, "bytes": size, "short_writes": short}
             kinds = [e[0] for e in ev]
             problems = []
             if not same:
-                problems.append("the file on disk differs from the payload")
+                problems.append("the file on disk differs from the payload" + (" (write(2) took only part of the buffer per call and reported it)" if short else ""))
             if "rename" not in kinds:
                 problems.append("no rename")
             else:
